@@ -89,6 +89,8 @@ def execute(case, t):
         t.cls("W=1")
     if case["front"] == "joint" and len(set(len(s) for s in tr.series)) >= 2:
         t.cls("joint_unequal_lengths")
+    if any(len(s) - W + 1 <= 3 for s in tr.series):
+        t.cls("series_with_stacked_length<=3")
     if W >= 2:
         t.mark_nontrivial({"lengths": [len(s) for s in tr.series], "W": W, **ce.brief_result(tr)})
 
@@ -128,7 +130,7 @@ def execute_helpers(case, t):
 
 def _strategy():
     return gen.e2e_config(front=("single", "joint", "joint"), max_N=4, max_W=7, max_K=4, t_range=(30, 110),
-                          limits=(1, 2, 3, 4), betas=(0.0, 1.0, 5.0, 25.0, 200.0))
+                          limits=(1, 2, 3, 4), betas=(0.0, 1.0, 5.0, 25.0, 200.0), allow_short=True)
 
 
 SUBCHECKS = [
